@@ -21,7 +21,10 @@ EXPECTED = ["limits_min", "limits_max", "limits_lowest", "limits_epsilon", "limi
             "limits_has_quiet_NaN", "limits_has_signaling_NaN", "limits_has_denorm", "limits_round_to_nearest",
             "macro_HALF_DENORM_MIN", "macro_HALF_NRM_MIN", "macro_HALF_MIN", "macro_HALF_MAX", "macro_HALF_EPSILON",
             "macro_HALF_MANT_DIG", "macro_HALF_DIG", "macro_HALF_DECIMAL_DIG", "macro_HALF_RADIX", "macro_HALF_DENORM_MIN_EXP",
-            "macro_HALF_MAX_EXP", "macro_HALF_DENORM_MIN_10_EXP", "macro_HALF_MAX_10_EXP"]
+            "macro_HALF_MAX_EXP", "macro_HALF_DENORM_MIN_10_EXP", "macro_HALF_MAX_10_EXP",
+            "limits_is_specialized", "limits_is_integer", "limits_is_exact", "limits_is_modulo", "limits_is_bounded",
+            "limits_is_iec559", "limits_traps", "limits_tinyness_before", "limits_has_denorm_loss"]
+FLOAT_MACROS = ("HALF_DENORM_MIN", "HALF_NRM_MIN", "HALF_MIN", "HALF_MAX", "HALF_EPSILON")
 
 
 def compiled_values():
@@ -42,6 +45,37 @@ def f32bits(x):
     return struct.unpack("<I", struct.pack("<f", x))[0]
 
 
+def f32_of_decimal(text):
+    """binary32 pattern nearest (ties to even) to the decimal literal `text`, computed exactly with
+    rationals (no double rounding: an `f`-suffixed C literal is rounded once, straight to float)."""
+    from fractions import Fraction
+    x = Fraction(text)
+    sign = 0x80000000 if x < 0 else 0
+    x = abs(x)
+    c = f32bits(float(x)) & 0x7fffffff
+    best = None
+    for u in (c - 1, c, c + 1):
+        if 0 <= u < 0x7f800000:
+            v = Fraction(struct.unpack("<f", struct.pack("<I", u))[0])
+            d = abs(v - x)
+            if best is None or d < best[0] or (d == best[0] and u % 2 == 0):
+                best = (d, u)
+    return sign | best[1]
+
+
+def macro_blocks():
+    """{'msvc': {HALF_X: (literal, suffix)}, 'other': {...}} - the two #if branches of the float macros."""
+    src = open(os.path.join(lib.REPO, "src", "Imath", "half.h")).read()
+    src_nc = re.sub(r"///[^\n]*", "", src)
+    blk = re.search(r"#if \(defined _WIN32[^\n]*_MSC_VER[^\n]*\n(.*?)#else(.*?)#endif", src_nc, re.S)
+    res = {"msvc": {}, "other": {}}
+    if blk:
+        for tag, body in (("msvc", blk.group(1)), ("other", blk.group(2))):
+            for m in re.finditer(r"#\s*define\s+(HALF_\w+)\s+(-?[0-9][0-9.eE+\-]*)(f?)\s*$", body, re.M):
+                res[tag].setdefault(m.group(1), (m.group(2), m.group(3)))
+    return res
+
+
 def regex_values():
     """The same constants read from the header text (non-MSVC branch of the macros)."""
     src = open(os.path.join(lib.REPO, "src", "Imath", "half.h")).read()
@@ -59,9 +93,21 @@ def regex_values():
     body = (blk.group(1) if blk else "") + src_nc
     for m in re.finditer(r"#\s*define\s+(HALF_\w+)\s+(-?[0-9][0-9.eE+\-]*)(f?)\s*$", body, re.M):
         macros.setdefault(m.group(1), m.group(2))
-    for k in ("HALF_DENORM_MIN", "HALF_NRM_MIN", "HALF_MIN", "HALF_MAX", "HALF_EPSILON"):
-        if k in macros:
-            res["macro_" + k] = f32bits(float(macros[k]))
+    mb = macro_blocks()
+    for k in FLOAT_MACROS:
+        # what `(float) HALF_X` is: an f-suffixed literal is rounded once to binary32, an unsuffixed one is a
+        # double literal converted to float
+        if k in mb["other"]:
+            lit, suf = mb["other"][k]
+            res["macro_" + k] = f32_of_decimal(lit) if suf else f32bits(float(lit))
+        if k in mb["msvc"]:
+            lit, suf = mb["msvc"][k]
+            res["msvc_macro_" + k] = f32_of_decimal(lit) if suf else f32bits(float(lit))
+    for lname in ("is_specialized", "is_integer", "is_exact", "is_modulo", "is_bounded", "is_iec559", "traps",
+                  "tinyness_before", "has_denorm_loss"):
+        m = re.search(r"\bbool\s+%s\s*=\s*(true|false)\s*;" % lname, lim)
+        if m:
+            res["limits_" + lname] = 1 if m.group(1) == "true" else 0
     for k in ("HALF_MANT_DIG", "HALF_DIG", "HALF_DECIMAL_DIG", "HALF_RADIX", "HALF_DENORM_MIN_EXP", "HALF_MAX_EXP",
               "HALF_DENORM_MIN_10_EXP", "HALF_MAX_10_EXP"):
         if k in macros:
